@@ -38,8 +38,11 @@ class Unsupported(Exception):
 If = namedtuple("If", "cond then orelse line fresh")
 If.__new__.__defaults__ = (True,)
 Loop = namedtuple("Loop", "lid iter target body carried line comp")
-Try = namedtuple("Try", "tid body handlers line")          # handlers: [Handler]
-Handler = namedtuple("Handler", "exc name body term ret line")
+Try = namedtuple("Try", "tid body handlers line else_from", defaults=(None,))
+# handlers: [Handler]; else_from: index in body where the `else:` clause starts (its events are not protected)
+Handler = namedtuple("Handler", "exc name body term ret line probe", defaults=(None,))
+# probe: (container, key) when the try body is the single statement `v = container[key]` (the handler of KeyError then
+# runs exactly when the key is missing from a plain dict)
 With = namedtuple("With", "items body line")
 Inlined = namedtuple("Inlined", "qual body line cls fn params ret")
 Call = namedtuple("Call", "callee method recv args kwargs res line")
@@ -172,6 +175,7 @@ class Program:
         self.genobjs = {}           # site -> (call node, bound arguments) of generator objects created but not yet run
         self.closures = {}          # site -> nested function definition + defining scope
         self.field_classes = {}     # (root class, field) -> class of the object the constructor leaves there
+        self.field_aliases = {}     # (root class, owner.part) -> the field of the owner that holds the very same object
         self.nonnull = {}           # (root class, field) -> the attribute is never None once the object is constructed
         self.back_refs = {}         # (root class, owner.part) -> ("outer", prefix) when the part always denotes the owner
         self.stream_steps = {}      # id(generator definition) -> one-element function of an endless stream, or None
@@ -449,6 +453,9 @@ def cmp_term(op, a, b):
         isnone = _is_none(a)
         if isnone is not None:
             return isnone if op == "is" else negate_const(isnone)
+    if op in ("<", "<=", ">", ">=", "==", "!=") and b in (("const", 0), ("const", 0.0)) and isinstance(a, tuple) and \
+            len(a) == 4 and a[0] == "op" and a[1] == "-":
+        return cmp_term(op, a[2], a[3])         # x - y > 0  is  x > y
     if op in _MIRROR:
         a_const = isinstance(a, tuple) and a and a[0] == "const"
         b_const = isinstance(b, tuple) and b and b[0] == "const"
@@ -1167,6 +1174,53 @@ class Summariser:
                     cache[key] = v
         return cache.get(key)
 
+    def _alias_of(self, name):
+        """`owner.part` is the very object held in another field of the owning object: the constructor puts the same
+        freshly built object into both and neither attribute is assigned anywhere else.  Returns that field's name."""
+        if "." not in name or name.startswith("%") or self.cls is None:
+            return None
+        rk = self._root_key()
+        key = (rk, name)
+        cache = self.prog.field_aliases
+        if key in cache:
+            return cache[key]
+        root = self.prog.cls(rk) if isinstance(rk, str) and not rk.startswith("<") else None
+        if root is None:
+            return None
+        _, init = self.prog.find_method(root, "__init__")
+        if init is None or init in self.fnstack:
+            return None
+        cache[key] = None
+        try:
+            fs = self.prog.summarise(root, "__init__").fields
+        except Unsupported:
+            return None
+        v = fs.get(name)
+        if v is None or v[0] not in ("new", "res"):
+            return None                 # one object built at one site (by the package or by a library call)
+        owner_fld, attr = name.rsplit(".", 1)
+        K = self.prog.owned.get((rk, owner_fld))
+        twins = [f for f, t in fs.items() if t == v and "." not in f]
+        if K is None or len(twins) != 1:
+            return None
+        twin = twins[0]
+
+        def stores(node, a, skip_init):
+            n_st = 0
+            for fn in ast.walk(node):
+                if isinstance(fn, ast.FunctionDef) and not (skip_init and fn.name == "__init__"):
+                    n_st += sum(1 for n in ast.walk(fn) if isinstance(n, ast.Attribute) and n.attr == a and
+                                isinstance(n.ctx, (ast.Store, ast.Del)))
+                    n_st += sum(1 for n in ast.walk(fn) if isinstance(n, ast.Call) and isinstance(n.func, ast.Name) and
+                                n.func.id in ("setattr", "delattr"))
+            return n_st
+        classes = list(self.prog.mro(root)) + [c for c in self.prog.subclasses(root) if c not in self.prog.mro(root)]
+        if any(stores(k.node, twin, True) for k in classes) or any(stores(k.node, attr, True) for k in self.prog.mro(K)) or \
+                any(stores(k.node, attr, False) for k in classes):
+            return None
+        cache[key] = twin
+        return twin
+
     def _never_none_field(self, name):
         """Class invariant `self.<name> is not None`: the constructor leaves a value that is never None and every
         method that assigns the attribute leaves one too (given that it found one).  Decided only when all stores
@@ -1225,6 +1279,10 @@ class Summariser:
         return True
 
     def field(self, name):
+        if name not in self.fields and "." in name:
+            twin = self._alias_of(name)
+            if twin is not None:
+                return self.field(twin)
         if name not in self.fields:
             back = self._back_reference(name)
             if back is not None:
@@ -2144,9 +2202,20 @@ class Summariser:
         if st.finalbody:
             raise Unsupported(f"finally at {self.module.path}:{st.lineno}")
         env0, f0 = dict(self.env), dict(self.fields)
+        probe = None
+        if len(st.body) == 1 and isinstance(st.body[0], (ast.Assign, ast.Expr, ast.AnnAssign)) and \
+                isinstance(st.body[0].value, ast.Subscript) and isinstance(st.body[0].value.ctx, ast.Load) and \
+                all(isinstance(t, ast.Name) for t in getattr(st.body[0], "targets", [])) and \
+                not any(isinstance(n, (ast.Call, ast.NamedExpr, ast.Await)) for n in ast.walk(st.body[0].value)):
+            scratch = []
+            probe = (self.expr(st.body[0].value.value, scratch), self.expr(st.body[0].value.slice, scratch))
+            if scratch or probe[0][0] == "sub" and False:
+                probe = None
         ev_b, term_b, ret_b = self.block(st.body)
+        else_from = None
         if st.orelse and not term_b:
             ev_o, term_b, ret_b = self.block(st.orelse)
+            else_from = len(ev_b)
             ev_b = ev_b + ev_o
         env_b, f_b = self.env, self.fields
         handlers = []
@@ -2165,13 +2234,14 @@ class Summariser:
                 self.env[h.name] = ("exc", h.lineno)
             ev_h, term_h, ret_h = self.block(h.body)
             exc = self._exc_names(h.type)
-            handlers.append(Handler(exc, h.name, ev_h, term_h, ret_h, h.lineno))
+            handlers.append(Handler(exc, h.name, ev_h, term_h, ret_h, h.lineno,
+                                    probe if (not ev_b[:else_from] and "KeyError" in exc) else None))
             envs.append(self.env)
             fss.append(self.fields)
             rets.append(ret_h)
             terms.append(term_h)
         tid = self.ids.next()
-        events.append(Try(tid, ev_b, handlers, st.lineno))
+        events.append(Try(tid, ev_b, handlers, st.lineno, else_from))
         live = [i for i, t in enumerate(terms) if not t]
         if not live:
             self.env, self.fields = env_b, f_b
@@ -2700,6 +2770,13 @@ class Summariser:
                 new = dict(kwargs)
                 return ("tuple", tuple(new.get(n, v) for n, v in zip(recv[2][1:], recv[1])), recv[2])
             if recv[0] == "field0" and self.cls is not None and "." not in recv[1] and not self.field_prefix and \
+                    self.fields.get(recv[1], recv) == recv and self._owned_class(recv[1]) is not None:
+                # a local name for the collaborator object held in a field
+                K = self._owned_class(recv[1])
+                c, m = self.prog.find_method(K, f.attr)
+                if m is not None:
+                    return self._inline_owned(K, recv[1], c, m, args, dict(kwargs), events, e)
+            if recv[0] == "field0" and self.cls is not None and "." not in recv[1] and not self.field_prefix and \
                     self.fields.get(recv[1], recv) == recv and self._owned_class(recv[1]) is None and \
                     not self._is_property(recv[1]):
                 # a method of the object held in a field, reached through an expression that evaluates to it
@@ -3113,6 +3190,8 @@ class Summariser:
     def _field_method_call(self, fld, meth, args, kwargs, events, e):
         """self.<fld>.<meth>(args) on an object held in a field (fld may be a component `owner.part`)."""
         line = e.lineno
+        if "." in fld and fld not in self.fields:
+            fld = self._alias_of(fld) or fld
         recv = self.field(fld)
         got = self._record_method(recv, meth, args, kwargs, events, e)
         if got is not None:
